@@ -136,6 +136,21 @@ def check(run, prog, tier):
     rc_vals = {int(v): v for v in rc.values()}
     bad_mt = next(x for x in range(256) if x not in mt_vals)
     bad_rc = next(x for x in range(256) if x not in rc_vals)
+    # the byte values of message types and return codes are fixed by the specification (PRS_SOMEIP_00055, PRS_SOMEIP_00191)
+    SPEC_MT = {"REQUEST": 0x00, "REQUEST_NO_RETURN": 0x01, "NOTIFICATION": 0x02, "REQUEST_ACK": 0x40, "REQUEST_NO_RETURN_ACK": 0x41,
+               "NOTIFICATION_ACK": 0x42, "RESPONSE": 0x80, "ERROR": 0x81, "RESPONSE_ACK": 0xC0, "ERROR_ACK": 0xC1}
+    SPEC_RC = {"E_OK": 0x00, "E_NOT_OK": 0x01, "E_UNKNOWN_SERVICE": 0x02, "E_UNKNOWN_METHOD": 0x03, "E_NOT_READY": 0x04, "E_NOT_REACHABLE": 0x05,
+               "E_TIMEOUT": 0x06, "E_WRONG_PROTOCOL_VERSION": 0x07, "E_WRONG_INTERFACE_VERSION": 0x08, "E_MALFORMED_MESSAGE": 0x09,
+               "E_WRONG_MESSAGE_TYPE": 0x0A}
+    for label, members, spec in (("message_type", mt, SPEC_MT), ("return_code", rc, SPEC_RC)):
+        wrong = {n: int(v) for n, v in members.items() if n in spec and int(v) != spec[n]}
+        dup = len({int(v) for v in members.values()}) != len(members)
+        missing = sorted(set(spec) & {"REQUEST", "REQUEST_NO_RETURN", "NOTIFICATION", "RESPONSE", "ERROR", "E_OK"} - set(members))
+        okv = not wrong and not dup and not missing
+        run.ob("L1", f"{ENUM_OF[label]}:specification-values", okv, loc(build, prog.cls(ENUM_OF[label]).node),
+               f"{len(members)} {label} enumerators carry their specification byte values" if okv else
+               f"{label} enumerators deviate from the specification: {({n: hex(v) for n, v in wrong.items()})}{' (two names share a value)' if dup else ''}"
+               f"{' missing ' + str(missing) if missing else ''}: the byte on the wire means something else to every other implementation")
     parse_err = "header.ParseError"
     cases = 0
     failures = {}
